@@ -216,7 +216,8 @@ pub fn normalise(text: &str) -> Vec<N> {
             } else if is(&w[k], "}") {
                 if let Some((ps, o)) = stack.pop() {
                     let plen = o - ps;
-                    if plen > 0 && k + 1 + plen < w.len() && is(&w[k + 1 + plen], "{") && (0..plen).all(|j| eq(&w[ps + j], &w[k + 1 + j])) {
+                    // (a `{..}` right after a colon is a brace value of a custom property, `--x: {a: b}`, not a block)
+                    if plen > 0 && !is(&w[o - 1], ":") && k + 1 + plen < w.len() && is(&w[k + 1 + plen], "{") && (0..plen).all(|j| eq(&w[ps + j], &w[k + 1 + j])) {
                         hit = Some((k, plen));
                         break;
                     }
